@@ -585,6 +585,12 @@ func (f *frame) load(addr *E, typ types.Type) *E {
 		}
 		return u.mk("struct", typeStr(typ), typ, args...)
 	}
+	// a field of a struct that was stored as a whole
+	if addr.Op == "faddr" && len(addr.Args) > 0 {
+		if ov, ok := f.mem.m[f.memKey(addr.Args[0])]; ok {
+			return f.underRC(u.Field(ov, addr.Aux, typ))
+		}
+	}
 	switch addr.Op {
 	case "faddr":
 		return u.Field(addr.Args[0], addr.Aux, typ)
@@ -669,7 +675,41 @@ func (f *frame) store(addr, val *E, rc Ref, in ssa.Instruction) {
 		f.g.memRoot[k] = root
 	}
 	f.storeFields(addr, val, mrc)
+	f.refreshOwners(addr)
 	f.addEffect(Effect{Cond: rc, Kind: "store", Addr: addr, Val: val, Pos: in.Pos(), Ins: in, Local: local})
+}
+
+// refreshOwners keeps the forwarded value of a struct in step with a store into one of its
+// fields: a later load of the whole struct sees the fields as they are now.
+func (f *frame) refreshOwners(addr *E) {
+	u := f.g.U
+	for p := addr; p.Op == "faddr" && len(p.Args) > 0; p = p.Args[0] {
+		owner := p.Args[0]
+		ok := f.memKey(owner)
+		old, have := f.mem.m[ok]
+		if !have {
+			continue
+		}
+		st, isSt := structOf(old.Typ)
+		if !isSt {
+			delete(f.mem.m, ok)
+			continue
+		}
+		args := make([]*E, 0, 2*st.NumFields())
+		for i := 0; i < st.NumFields(); i++ {
+			fld := st.Field(i)
+			fa := u.mk("faddr", fld.Name(), types.NewPointer(fld.Type()), owner)
+			fk := f.memKey(fa)
+			fv, haveF := f.mem.m[fk]
+			if !haveF {
+				// not written on its own: what the struct value stored as a whole says
+				fv = u.Field(old, fld.Name(), fld.Type())
+				f.mem.m[fk] = fv
+			}
+			args = append(args, u.Str(fld.Name()), fv)
+		}
+		f.mem.m[ok] = u.mk("struct", typeStr(old.Typ), old.Typ, args...)
+	}
 }
 
 // storeFields forwards the fields of a stored struct value to later loads of
@@ -2175,6 +2215,14 @@ func (f *frame) searchCall(in ssa.Instruction, name string, args []*E, rc Ref, t
 	if coll.Typ != nil {
 		if st, ok := coll.Typ.Underlying().(*types.Slice); ok {
 			elemT = st.Elem()
+		}
+	}
+	if elemT == nil {
+		// the list expression carries no type (a selection between lists): take it from the call
+		if ci, ok := in.(ssa.CallInstruction); ok && len(ci.Common().Args) > 0 {
+			if st, ok := ci.Common().Args[0].Type().Underlying().(*types.Slice); ok {
+				elemT = st.Elem()
+			}
 		}
 	}
 	if elemT == nil {
